@@ -9,6 +9,7 @@
   correspondence run re-parses every emitted request body with exact decimal arithmetic.
 -/
 import BtcVerif.Proofs.Rpc
+import BtcVerif.Proofs.RpcFloat
 
 namespace BtcVerif.C19
 open BtcVerif Model.Rpc
@@ -247,5 +248,41 @@ example : b2lx [0x6f, 0xe2, 0x8c, 0x0a] = "0a8ce26f" := by decide
 --   sources of /repo.  The proved version below, `amount_out_exact_partial`, takes the two facts about
 --   them that the argument needs as explicit hypotheses.
 -/
+
+/-- PARTIAL (send side).  What is missing relative to the full statement above: `rn` ("the double
+    nearest to") and the emitted numeral `m · 10^p` are not computed from a model of IEEE-754 and of
+    `float.__repr__`; instead
+      * `hspacing` assumes the spacing of binary64 (two positive reals with the same nearest double
+        differ by at most 2^-52 of the larger one — round-to-nearest with a 53-bit significand),
+      * `hrt` and `hshort` assume the contract of `float.__repr__`: the numeral parses back to the
+        double that was formatted, and no numeral with fewer significant digits does.
+    Under these, for every amount `0 < a ≤ 21·10^14` the numeral denotes exactly `a / 10^8`.
+    (`a = 0` is formatted as `0.0`.)  The correspondence run checks the conclusion on the real
+    `float`/`repr` by re-parsing every request body with exact decimal arithmetic. -/
+theorem amount_out_exact_partial
+    (rn : ℚ → ℚ)
+    (hspacing : ∀ x y : ℚ, 0 < x → 0 < y → rn x = rn y → |x - y| ≤ max x y / 2 ^ 52)
+    (a : ℕ) (ha : 0 < a) (ha2 : a ≤ 21 * 10 ^ 14)
+    (m : ℕ) (p : ℤ) (hm : m % 10 ≠ 0)
+    (hrt : rn (decVal m p) = rn ((a : ℚ) / 10 ^ 8))
+    (hshort : ∀ (m' : ℕ) (p' : ℤ), m' % 10 ≠ 0 → rn (decVal m' p') = rn ((a : ℚ) / 10 ^ 8) →
+      ndigits m ≤ ndigits m') :
+    decVal m p = (a : ℚ) / 10 ^ 8 :=
+  repr_denotes_amount rn hspacing a ha ha2 m p hm hrt hshort
+
+/-- the hypotheses are satisfiable: with exact arithmetic for `rn` (every real its own "double") the
+    spacing bound holds trivially and the shortest numeral of 0.5 BTC is `5 · 10^-1` -/
+example : decVal 5 (-1) = ((50000000 : ℕ) : ℚ) / 10 ^ 8 := by
+  apply amount_out_exact_partial id _ 50000000 (by norm_num) (by norm_num) 5 (-1) (by norm_num)
+  · show decVal 5 (-1) = _
+    unfold decVal; norm_num
+  · intro m' p' _ _
+    have : ndigits 5 = 1 := by rw [ndigits]; simp
+    rw [this]; exact ndigits_pos m'
+  · intro x y _ hy h
+    have : x = y := h
+    subst this
+    simp only [sub_self, abs_zero, max_self]
+    positivity
 
 end BtcVerif.C19
